@@ -39,15 +39,18 @@
                                  `C01_accepted_statement` for one registration THROUGH `emulate` (Proofs/EmulatorRun.lean executes the
                                  emulator model symbolically: `manageNGSetup_run`, `registerUE_run`, `emulate_run`):
                                  judge (emulate cfg dls).uls = accept, given what the emulator READS from the five downlink messages
-  Partial: `C01_accepted_statement` (judge (emulate cfg (dl cfg choices)) = accept for a SPECIFIED downlink function `dl`) is NOT
-  proved as stated. `C01_accepted_for_downlink` proves it for one registration with the downlink side as hypotheses (`DlReads`): the
-  five downlink messages are decodable, the first DOWNLINK NAS TRANSPORT carries the AMF-UE-NGAP-ID of the choice and an
-  Authentication Request from whose AUTN / RAND `DeriveRESstarAndSetKey` obtains the vector's RES* and keys
-  (`C01_keys_of_network_challenge` proves this when the AUTN / RAND read are the network's, from `C01_res_star`). Missing for the full statement: (a) a specification `dl` of the AMF's downlink octets with
-  a proof that they have these properties (NGAP round trip of the AMF-side messages, the NAS decoding of the Authentication
-  Request); (b) more than one UE (the fold is proved for one registration); (c) nothing after registration is covered
-  here (C02). The reference AMF is evaluated on every real transcript (spec column of the `convo` op), and
-  `C01_accepted_witness` evaluates one whole conversation with real crypto in the kernel. Traffic mode (XDP) is not modelled.
+    C01_accepted / C01_accepted_n
+                                 the full statement: judge (emulate cfg (dl cfg choices)).uls = accept with `dl` = `Spec.AmfDl.dl`
+                                 (Spec/AmfDownlink.lean: the conformant AMF's five downlink messages per UE, built with the X.691 /
+                                 TS 24.501 SPECIFICATION encoders), for one UE and for N ≤ 10 000 UEs (`C01_registration_block`,
+                                 `C01_register_one`, `C01_register_loop`: the registration loop folded; `C01_dlReads_of_spec`: what the
+                                 emulator reads from the specified downlink — Proofs/EmulatorDownlink(.Nas).lean)
+  `C01_accepted_statement` is proved in the form `C01_accepted_n`. Its hypotheses beyond well-formed configuration and AMF
+  choices: `Spec.AmfDl.dl` is defined for every UE (the three protected NAS messages exist — a property of the primitives' output
+  lengths), every downlink message fits the emulator's 2048-octet read buffer, N ≤ 10 000 (C16's distinct-id range), and nothing
+  is requested after registration (the procedures after it are C02's: `Props.C02.C02_script_accepted`). The reference AMF is also
+  evaluated on every real transcript (spec column of the `convo` op), and `C01_accepted_witness` evaluates one whole
+  conversation with real crypto in the kernel. Traffic mode (XDP) is not modelled.
 -/
 import Stgutg.Proofs.Emulator
 import Stgutg.Proofs.EmulatorWitness
@@ -56,6 +59,7 @@ import Stgutg.Proofs.BuildersJudge
 import Stgutg.Proofs.EmulatorSubscriber
 import Stgutg.Proofs.EmulatorRun
 import Stgutg.Proofs.EmulatorReencode
+import Stgutg.Proofs.EmulatorDownlinkNas
 import Stgutg.Props.C09
 import Stgutg.Props.C11
 
@@ -1205,6 +1209,621 @@ theorem C01_keys_of_network_challenge (P : Prims) (hE : BlockCipher P.aes) (hH :
   have : keys' = keys := Except.ok.inj (hder.symm.trans hD)
   subst this
   exact ⟨e1, e3, e4⟩
+
+theorem take2048 (d : Bytes) (h : d.length ≤ 2048) : d.take 2048 = d := List.take_of_length_le h
+
+open Stgutg.Proofs.BuildersRoles Stgutg.Proofs.UeIdentity Stgutg.Proofs.EmulatorRun Stgutg.Proofs.EmulatorSubscriber
+  Stgutg.Proofs.EmulatorDownlink in
+/-- **C01_accepted.** The statement of C01 for one UE, with the downlink side SPECIFIED: for every well-formed configuration
+    (decimal IMSI of 5..15 digits with MCC = its first 3 digits and MNC = the next 2 or 3, at least one MSIN digit; K and OPc
+    hexadecimal 16-octet values read alike by the code and by the reference AMF; gNB id of 22..32 bits in ⌈n/8⌉ octets with the
+    unused bits clear; non-empty gNB name; ABBA of 2..255 octets; one registration requested and nothing after it) and every
+    choice of a conformant AMF (RAND of 16 octets, SQN of 6, AMF field of 2, any ngKSI, AMF-UE-NGAP-ID below 2^40), when the
+    AMF sends the five downlink messages of `Spec.AmfDl.dl` — built with the SPECIFICATION encoders only (X.691, TS 24.501,
+    TS 33.501 / TS 35.206 for the challenge) — and they fit the emulator's 2048-octet receive buffer, the emulator completes
+    and the reference AMF ACCEPTS its transcript:
+      judge (emulate cfg (dl cfg choice)).uls = accept.
+    (`hdl`: the specification encoders do encode — `Spec.AmfDl.dl … = some dls`; the NGAP encodings exist by the theorems used
+    here, the three protected NAS messages are the remaining content of that hypothesis. Primitives AES / HMAC / CMAC / CTR are
+    parameters: block cipher on 16 octets, 32-octet MAC, CTR a keystream cipher, CMAC tag of at least 4 octets.) -/
+theorem C01_accepted (P : Prims) (hP : PrimsOk P) (hE : BlockCipher P.aes) (hH : MacLen P.hmac) (cfg : Cfg) (scfg : Spec.Amf.Cfg)
+    (chs : List Spec.Amf.Choice) (E : Model.Convert.Ext)
+    -- the configuration
+    (hreg : cfg.reg = 1) (hpdu : cfg.pdu = 0) (hdereg : cfg.dereg = 0) (hone : Spec.Amf.subscribers scfg = 1)
+    (himsi : scfg.imsi = cfg.imsi) (hd : DecimalImsi cfg.imsi) (h5 : 5 ≤ cfg.imsi.length) (h15 : cfg.imsi.length ≤ 15)
+    {w : Nat} (hw : w = 2 ∨ w = 3) (hmncl : cfg.mnc.length = w) (hmcc3 : cfg.mcc.length = 3)
+    (hmccB : scfg.mcc = cfg.mcc) (hmncB : scfg.mnc = cfg.mnc)
+    (hmcc : scfg.mcc = cfg.imsi.take 3) (hmnc : scfg.mnc = (cfg.imsi.drop 3).take w) (hlen : 3 + w < cfg.imsi.length)
+    (hfit : MsinFits cfg.imsi (3 + w) 1)
+    (h22 : 22 ≤ cfg.bitlength) (h32 : cfg.bitlength ≤ 32) (hg : cfg.gnbId.length = (cfg.bitlength + 7) / 8)
+    (hc : Canonical cfg.gnbId cfg.bitlength) (hname : 1 ≤ cfg.name.length)
+    (m : Bytes) (hplmn : Model.Suci.ngSetupPlmn cfg.imsi cfg.mnc.length = .ok m) (hm : m.length = 3)
+    (hcfg : Spec.Amf.plmnOf scfg = some m)
+    (k opc : Bytes) (hk : hexDecode cfg.k = some k) (hk' : Spec.Amf.hexText scfg.k = some k) (hk16 : k.length = 16)
+    (hopcne : cfg.opc ≠ []) (hopc : hexDecode cfg.opc = some opc) (hopc' : Spec.Amf.opcOf P scfg = some opc)
+    (hopc16 : opc.length = 16) (habba : 2 ≤ scfg.abba.length ∧ scfg.abba.length < 256)
+    -- the AMF's choice
+    (ch : Spec.Amf.Choice) (hch : chs[0]? = some ch) (hamf : ch.amfUeNgapId < 2 ^ 40)
+    (hrand : ch.rand.length = 16) (hsqn : ch.sqn.length = 6) (hamfF : ch.amf.length = 2)
+    -- the downlink messages are those of the specification
+    (cap : Bytes) (dls : List Bytes)
+    (hdl : Spec.AmfDl.dl P scfg 0 ch (createUE cfg 0).ctx.ranUeNgapId cap = some dls)
+    (hbuf : ∀ d ∈ dls, d.length ≤ 2048) :
+    (emulate P E cfg dls).outcome = .completed ∧
+    Spec.Amf.judge P false scfg chs (emulate P E cfg dls).uls none ((emulate P E cfg dls).outcome == .completed) = .accept := by
+  obtain ⟨plmn, aka, autn, ar, n3, n4, n5, d1, d2, d3, d4, d5, e1, hvec, e3, e4, e5, e6, e7, e8, e9, rfl⟩ :=
+    dl_some P scfg 0 ch _ cap dls hdl
+  have hpm : plmn = m := Option.some.inj (e1.symm.trans hcfg)
+  subst hpm
+  -- the RAN-UE-NGAP-ID of the created UE
+  have hran : (createUE cfg 0).ctx.ranUeNgapId = (((Model.UeIdentity.decVal cfg.imsi + 0) % 10000 : Nat) : Int) :=
+    createUE_ranId hd 0 (by decide) cfg.k cfg.opc cfg.op
+  have hr0 : 0 ≤ (createUE cfg 0).ctx.ranUeNgapId := by rw [hran]; omega
+  have hr1 : (createUE cfg 0).ctx.ranUeNgapId < 2 ^ 32 := by rw [hran]; omega
+  have ha0 : (0 : Int) ≤ ch.amfUeNgapId := by omega
+  have ha1 : (ch.amfUeNgapId : Int) < 2 ^ 40 := by exact_mod_cast hamf
+  -- AUTN
+  have hautn : autn = Spec.Ts35206.autn P.aes k opc ch.rand ch.sqn ch.amf := by
+    unfold Spec.Amf.autnOf at e3
+    rw [hk', hopc'] at e3
+    exact (Option.some.inj e3).symm
+  have hautn16 : autn.length = 16 := by
+    rw [hautn]
+    unfold Spec.Ts35206.autn
+    have h5' := f5_length (rand := ch.rand) hE hk16 hopc16 hrand
+    have h1' := f1_length (rand := ch.rand) hE hk16 hopc16 hrand hsqn hamfF
+    simp only [List.length_append, Proofs.Milenage.xorBytes_length, h5', h1', hsqn, hamfF]
+    rfl
+  -- the downlink messages decode
+  have hb := hbuf
+  simp only [List.mem_cons, List.not_mem_nil, or_false, forall_eq_or_imp, forall_eq] at hb
+  obtain ⟨hb1, hb2, hb3, hb4, hb5⟩ := hb
+  obtain ⟨x1, hx1, hdec1⟩ := ngsr_roundtrip plmn hm
+  have : x1 = d1 := Option.some.inj (hx1.symm.trans e4); subst this
+  obtain ⟨x2, hx2, hdec2⟩ := dnt_roundtrip ch.amfUeNgapId (createUE cfg 0).ctx.ranUeNgapId ar ha0 ha1 hr0 hr1
+  have : x2 = d2 := Option.some.inj (hx2.symm.trans e6); subst this
+  obtain ⟨x3, hx3, hdec3⟩ := dnt_roundtrip ch.amfUeNgapId (createUE cfg 0).ctx.ranUeNgapId n3 ha0 ha1 hr0 hr1
+  have : x3 = d3 := Option.some.inj (hx3.symm.trans e7); subst this
+  obtain ⟨x4, hx4, hdec4⟩ := icsReq_roundtrip plmn hm ch.amfUeNgapId (createUE cfg 0).ctx.ranUeNgapId (Spec.AmfDl.kgnb P aka.kamf) n4
+    ha0 ha1 hr0 hr1 (by unfold Spec.AmfDl.kgnb Spec.Ts33501A.kdf; exact hH _ _)
+  have : x4 = d4 := Option.some.inj (hx4.symm.trans e8); subst this
+  obtain ⟨x5, hx5, hdec5⟩ := dnt_roundtrip ch.amfUeNgapId (createUE cfg 0).ctx.ranUeNgapId n5 ha0 ha1 hr0 hr1
+  have : x5 = d5 := Option.some.inj (hx5.symm.trans e9); subst this
+  -- the Authentication Request
+  obtain ⟨pm, r, hpd, hauth, har⟩ := ar_decodes ch.ngKsi scfg.abba ch.rand autn habba.2 habba.1 hrand hautn16 ar e5
+  subst har
+  -- the keys
+  have hd' : DecimalImsi scfg.imsi := by rw [himsi]; exact hd
+  have hfitall : Model.UeIdentity.decVal cfg.imsi + 0 < 10 ^ cfg.imsi.length := by
+    have := decVal_lt cfg.imsi hd.digits; omega
+  have hsupi : (createUE cfg 0).ctx.supi = Model.UeIdentity.imsiPrefix ++ Model.UeIdentity.decW cfg.imsi.length
+      (Model.UeIdentity.decVal cfg.imsi + 0) := createUE_supi hd 0 hfitall cfg.k cfg.opc cfg.op
+  have hds := supiDigits_eq scfg hd' 0
+  rw [himsi] at hds
+  have hdigs := decW_digits cfg.imsi.length (Model.UeIdentity.decVal cfg.imsi + 0)
+  obtain ⟨keys, hder, k1, _, k3, k4⟩ := C01_res_star P hE hH scfg ch 0 aka
+    { amf := (createUE cfg 0).ctx.amf, k := (createUE cfg 0).ctx.k, opc := (createUE cfg 0).ctx.opc, op := (createUE cfg 0).ctx.op }
+    [0x80, 0x00] k opc (Model.UeIdentity.decW cfg.imsi.length (Model.UeIdentity.decVal cfg.imsi + 0)) _ hvec
+    hk hk' hk16 hopcne hopc hopc' hopc16 (show hexDecode [56, 48, 48, 48] = some [0x80, 0x00] by decide) (by decide) hrand hsqn hds
+    (asc_digitsOf _ hdigs)
+    (by rw [List.all_eq_true]; intro c hc; exact hdigs c hc)
+    (by rw [decW_length]; exact h5) (by rw [decW_length]; exact h15)
+    (by rw [hmccB]; exact hmcc3) (by rw [hmncB, hmncl]; exact hw)
+  rw [hmccB, hmncB, ← hautn] at hder
+  have D : DlReads P cfg (createUE cfg 0) x2 x3 x4 x5 ch.amfUeNgapId keys (createUE cfg 0) :=
+    { v2 := _, dnt := _, hdec2 := by rw [take2048 _ hb2]; exact hdec2, hdnt := dnt_alt _ _ _,
+      pm := some pm, hgn := fun w => dnt_getNasPdu P _ _ _ r pm hpd w, autn := autn, rand := ch.rand, hauth := hauth,
+      hkeys := by rw [hsupi]; exact hder, hamf := dnt_amf _ _ _,
+      v3 := _, hdec3 := by rw [take2048 _ hb3]; exact hdec3, v4 := _, hdec4 := by rw [take2048 _ hb4]; exact hdec4,
+      hdec5 := by rw [take2048 _ hb5, hdec5]; exact ⟨by simp, by simp⟩ }
+  exact C01_accepted_for_downlink P hP hH cfg scfg chs E x1 x2 x3 x4 x5 hreg hpdu hdereg hone himsi hd hw hmncl hmcc hmnc hlen hfit
+    h22 h32 hg hc hname plmn hplmn hm hcfg ch aka hch hvec hamf _ (by rw [take2048 _ hb1]; exact hdec1) keys (createUE cfg 0) D
+    ⟨rfl, rfl, rfl⟩ ⟨k1, k3, k4⟩
+
+open Stgutg.Proofs.EmulatorWitness in
+set_option maxRecDepth 1000000 in
+/-- the downlink hypotheses of `C01_accepted` are satisfiable: for the configuration and choice of the recorded conversation
+    `reg1` (with primitives that are cheap in the kernel) the specification encoders encode all five messages, each far below
+    2048 octets. (With the real AES / SHA-256 the octets of DL2, DL3 and DL5 are byte for byte those the scripted AMF of the
+    correspondence harness sent in that conversation — evaluated once outside the build.) -/
+example : (match reg1Choices.head?.bind fun ch => Spec.AmfDl.dl cheapPrims (specOf reg1Cfg reg1Abba) 0 ch 6 [0x80, 0x20] with
+    | some dls => dls.length == 5 && dls.all fun d => decide (d.length ≤ 2048)
+    | none => false) = true := by decide +kernel
+
+/-! ### N UEs: the registration of UE `j` as a block, from any state of the judge in which `j` and its RAN-UE-NGAP-ID are new -/
+
+/-- the judge's state of subscriber `j` -/
+def regUe (j : Nat) (ran : Int) (ch : Spec.Amf.Choice) (aka : Spec.Ts33501A.Aka) (reg : Spec.Amf.Reg) (last : Option Nat)
+    (used : List Nat) : Spec.Amf.UeSt := { j := j, ran := ran, ch := ch, aka := aka, reg := reg, last := last, used := used }
+
+/-- NG Setup done, these UEs known, no clause raised -/
+def regSt (us : List Spec.Amf.UeSt) : Spec.Amf.St := { ngSetup := true, ues := us }
+
+theorem regSt_find (us : List Spec.Amf.UeSt) (u : Spec.Amf.UeSt) (h : ∀ x ∈ us, x.ran ≠ u.ran) :
+    (regSt (us ++ [u])).ues.find? (·.ran == u.ran) = some u := by
+  simp only [regSt, List.find?_append]
+  have : us.find? (·.ran == u.ran) = none := by
+    rw [List.find?_eq_none]; intro x hx; simpa using h x hx
+  rw [this]; simp
+
+theorem regSt_setUe (us : List Spec.Amf.UeSt) (u u' : Spec.Amf.UeSt) (hj : u'.j = u.j) (h : ∀ x ∈ us, x.j ≠ u.j) :
+    (regSt (us ++ [u])).setUe u' = regSt (us ++ [u']) := by
+  simp only [regSt, Spec.Amf.St.setUe, List.map_append, List.map_cons, List.map_nil, hj, beq_self_eq_true, if_true]
+  congr 2
+  conv => rhs; rw [← List.map_id us]
+  apply List.map_congr_left
+  intro x hx
+  have := h x hx
+  simp [this]
+
+/-- **C01_registration_block.** The five uplink messages of the registration of subscriber `j` (UL2 … UL6 of
+    `C01_registration_script_accepted`), judged (for C01 or for C02: `life`) from ANY state in which NG Setup is done, no clause is raised, and neither `j` nor
+    its RAN-UE-NGAP-ID occurs among the UEs known so far: the judge raises no clause and ends with `j` REGISTERED after the
+    others — whatever follows in the transcript is judged from that state. -/
+theorem C01_registration_block (P : Prims) (hP : PrimsOk P) (life : Bool) (cfg : Spec.Amf.Cfg) (chs : List Spec.Amf.Choice)
+    (E : Model.Convert.Ext) (m : Bytes) (hm : m.length = 3) (us : List Spec.Amf.UeSt) (j : Nat) (k : Nat)
+    (ran : Int) (hr0 : 0 ≤ ran) (hr1 : ran < 2 ^ 32) (hnew : ∀ x ∈ us, x.ran ≠ ran ∧ x.j ≠ j) (mi secCap : Nas.Val)
+    (hmi : mi.iei = 0 ∧ mi.len = mi.data.length ∧ mi.data.length < 65536)
+    (hsc : secCap.iei = 0x2E ∧ secCap.len = secCap.data.length ∧ secCap.data.length < 256)
+    (hea : Spec.Identity.eaSupported secCap.data Spec.Amf.selectedEa = true)
+    (hia : Spec.Identity.iaSupported secCap.data Spec.Amf.selectedIa = true)
+    (ch : Spec.Amf.Choice) (aka : Spec.Ts33501A.Aka) (hsub : Spec.Amf.subscriberOf cfg mi.data = some j)
+    (hch : chs[j]? = some ch) (hvec : Spec.Amf.vector P cfg j ch = some aka)
+    (hamf : ch.amfUeNgapId < 2 ^ 40) (hres : aka.resStar.length = 16)
+    (sec : UeSec) (hin : InStep sec (regUe j ran ch aka .authSent none []))
+    (hrr : ∀ rr, Nas.Ctor.encodeWith Gen.Nas.layout_RegistrationRequest
+      (Nas.Ctor.registrationRequest 1 mi none (some secCap) (some cap5GMMVal) none none) = .ok rr → rr.length < 65536) :
+    ∃ nas2 b2 nas3 b3 rr smc o1 b4 b5 rc o2 b6,
+      Nas.Ctor.encodeWith Gen.Nas.layout_RegistrationRequest
+        (Nas.Ctor.registrationRequest 1 mi none (some secCap) none none none) = .ok nas2 ∧
+      Wrapper.run E .GetInitialUEMessage m [.int ran, .octs nas2, .str []] = .ok (.ok b2) ∧
+      Nas.Ctor.encodeWith Gen.Nas.layout_AuthenticationResponse (Nas.Ctor.authenticationResponse aka.resStar []) = .ok nas3 ∧
+      Wrapper.run E .GetUplinkNASTransport m [.int ch.amfUeNgapId, .int ran, .octs nas3] = .ok (.ok b3) ∧
+      Nas.Ctor.encodeWith Gen.Nas.layout_RegistrationRequest
+        (Nas.Ctor.registrationRequest 1 mi none (some secCap) (some cap5GMMVal) none none) = .ok rr ∧
+      Nas.Ctor.encodeWith Gen.Nas.layout_SecurityModeComplete (Nas.Ctor.securityModeComplete (some rr)) = .ok smc ∧
+      (Model.NasProtect.encodeNasPduWithSecurity P sec smc 4 true true).2 = .ok o1 ∧
+      Wrapper.run E .GetUplinkNASTransport m [.int ch.amfUeNgapId, .int ran, .octs o1] = .ok (.ok b4) ∧
+      Wrapper.run E .GetInitialContextSetupResponse m [.int ch.amfUeNgapId, .int ran] = .ok (.ok b5) ∧
+      Nas.Ctor.encodeWith Gen.Nas.layout_RegistrationComplete (Nas.Ctor.registrationComplete none) = .ok rc ∧
+      (Model.NasProtect.encodeNasPduWithSecurity P (Model.NasProtect.encodeNasPduWithSecurity P sec smc 4 true true).1 rc 2 true false).2
+        = .ok o2 ∧
+      Wrapper.run E .GetUplinkNASTransport m [.int ch.amfUeNgapId, .int ran, .octs o2] = .ok (.ok b6) ∧
+      ∀ (rest : List Bytes),
+        Spec.Amf.run P life cfg chs (regSt us) k (b2 :: b3 :: b4 :: b5 :: b6 :: rest) =
+          Spec.Amf.run P life cfg chs (regSt (us ++ [regUe j ran ch aka .registered (some 1) [1, 0]])) (k + 5) rest := by
+  have hsuci : Spec.Amf.suciIs cfg j mi.data = true := by
+    have := List.find?_some hsub
+    exact this
+  have hran : ∀ x ∈ us, x.ran ≠ ran := fun x hx => (hnew x hx).1
+  have hj : ∀ x ∈ us, x.j ≠ j := fun x hx => (hnew x hx).2
+  have hanyj : (regSt us).ues.any (·.j == j) = false := by
+    simp only [regSt, List.any_eq_false, beq_iff_eq]; exact hj
+  have hanyr : (regSt us).ues.any (·.ran == ran) = false := by
+    simp only [regSt, List.any_eq_false, beq_iff_eq]; exact hran
+  have hfind : ∀ (reg : Spec.Amf.Reg) (last : Option Nat) (used : List Nat),
+      (regSt (us ++ [regUe j ran ch aka reg last used])).ues.find? (·.ran == ran) = some (regUe j ran ch aka reg last used) :=
+    fun reg last used => regSt_find us (regUe j ran ch aka reg last used) hran
+  obtain ⟨nas2, b2, henc2, hrun2, hstep2⟩ := C01_step_registration_request P cfg chs (regSt us) k
+    E m hm ran hr0 hr1 rfl mi secCap hmi hsc hea hia j ch aka hsub hch hvec hanyj hanyr
+  have hstep2' : Spec.Amf.step P cfg chs (regSt us) k b2 = regSt (us ++ [regUe j ran ch aka .authSent none []]) := hstep2
+  obtain ⟨nas3, b3, henc3, hrun3, hstep3⟩ := C01_step_authentication_response P cfg chs
+    (regSt (us ++ [regUe j ran ch aka .authSent none []])) (k + 1) E m hm ran hr0 hr1 (regUe j ran ch aka .authSent none [])
+    (hfind _ _ _) hamf aka.resStar hres rfl rfl
+  have hstep3' : Spec.Amf.step P cfg chs (regSt (us ++ [regUe j ran ch aka .authSent none []])) (k + 1) b3 =
+      regSt (us ++ [regUe j ran ch aka .smcSent none []]) := by
+    rw [hstep3]; exact regSt_setUe us _ _ rfl hj
+  obtain ⟨rr, smc, o1, b4, hencrr, hencsmc, ho1, hrun4, hstep4, hin1, hcnt1⟩ := C01_step_security_mode_complete P hP cfg chs
+    (regSt (us ++ [regUe j ran ch aka .smcSent none []])) (k + 2) E m hm ran hr0 hr1 (regUe j ran ch aka .smcSent none [])
+    (hfind _ _ _) hamf sec ⟨hin.1, hin.2⟩ rfl mi secCap hmi hsc hea hia hsuci hrr
+  have hstep4' : Spec.Amf.step P cfg chs (regSt (us ++ [regUe j ran ch aka .smcSent none []])) (k + 2) b4 =
+      regSt (us ++ [regUe j ran ch aka (.ctxSetup false false) (some 0) [0]]) := by
+    rw [hstep4]; exact regSt_setUe us _ _ rfl hj
+  obtain ⟨b5, hrun5, hstep5⟩ := C01_step_initial_context_setup_response P cfg chs
+    (regSt (us ++ [regUe j ran ch aka (.ctxSetup false false) (some 0) [0]])) (k + 3) E m hm ran hr0 hr1
+    (regUe j ran ch aka (.ctxSetup false false) (some 0) [0]) (hfind _ _ _) hamf rfl false rfl
+  have hstep5' : Spec.Amf.step P cfg chs (regSt (us ++ [regUe j ran ch aka (.ctxSetup false false) (some 0) [0]])) (k + 3) b5 =
+      regSt (us ++ [regUe j ran ch aka (.ctxSetup true false) (some 0) [0]]) := by
+    rw [hstep5]; exact regSt_setUe us _ _ rfl hj
+  obtain ⟨rc, o2, b6, hencrc, ho2, hrun6, hstep6⟩ := C01_step_registration_complete P hP cfg chs
+    (regSt (us ++ [regUe j ran ch aka (.ctxSetup true false) (some 0) [0]])) (k + 4) E m hm ran hr0 hr1
+    (regUe j ran ch aka (.ctxSetup true false) (some 0) [0]) (hfind _ _ _) hamf
+    (Model.NasProtect.encodeNasPduWithSecurity P sec smc 4 true true).1 ⟨hin1.1, hin1.2⟩ 0 rfl hcnt1 rfl true false rfl
+  have hstep6' : Spec.Amf.step P cfg chs (regSt (us ++ [regUe j ran ch aka (.ctxSetup true false) (some 0) [0]])) (k + 4) b6 =
+      regSt (us ++ [regUe j ran ch aka .registered (some 1) [1, 0]]) := by
+    rw [hstep6]; exact regSt_setUe us _ _ rfl hj
+  refine ⟨nas2, b2, nas3, b3, rr, smc, o1, b4, b5, rc, o2, b6, henc2, hrun2, henc3, hrun3, hencrr, hencsmc, ho1, hrun4, hrun5,
+    hencrc, ho2, hrun6, fun rest => ?_⟩
+  rw [run_clean_step P life cfg chs _ k b2 _ rfl (by rw [hstep2']; rfl), hstep2',
+    run_clean_step P life cfg chs _ (k + 1) b3 _ rfl (by rw [hstep3']; rfl), hstep3',
+    run_clean_step P life cfg chs _ (k + 2) b4 _ rfl (by rw [hstep4']; rfl), hstep4',
+    run_clean_step P life cfg chs _ (k + 3) b5 _ rfl (by rw [hstep5']; rfl), hstep5',
+    run_clean_step P life cfg chs _ (k + 4) b6 _ rfl (by rw [hstep6']; rfl), hstep6']
+
+open Stgutg.Proofs.BuildersRoles Stgutg.Proofs.UeIdentity Stgutg.Proofs.EmulatorRun in
+/-- **C01_register_one.** One iteration of the registration loop, emulator and judge together: `RegisterUE` for UE `j` of a
+    population of `N` (`CreateUE(imsi, j, …)`), reading the four downlink messages `DlReads` describes, writes five uplink
+    messages; judged at position `k` from a state in which NG Setup is done and `j` / its RAN-UE-NGAP-ID are new, they raise no
+    clause and leave `j` REGISTERED. -/
+theorem C01_register_one (P : Prims) (hP : PrimsOk P) (hH : MacLen P.hmac) (cfg : Cfg) (scfg : Spec.Amf.Cfg)
+    (chs : List Spec.Amf.Choice) (E : Model.Convert.Ext) (N : Nat) (hN : Spec.Amf.subscribers scfg = N)
+    (himsi : scfg.imsi = cfg.imsi) (hd : DecimalImsi cfg.imsi) {w : Nat} (hw : w = 2 ∨ w = 3) (hmncl : cfg.mnc.length = w)
+    (hmcc : scfg.mcc = cfg.imsi.take 3) (hmnc : scfg.mnc = (cfg.imsi.drop 3).take w) (hlen : 3 + w < cfg.imsi.length)
+    (hfit : MsinFits cfg.imsi (3 + w) N) (m : Bytes) (hm : m.length = 3)
+    (j : Nat) (hj : j < N) (us : List Spec.Amf.UeSt)
+    (hnew : ∀ x ∈ us, x.ran ≠ (createUE cfg j).ctx.ranUeNgapId ∧ x.j ≠ j)
+    (ch : Spec.Amf.Choice) (aka : Spec.Ts33501A.Aka) (hch : chs[j]? = some ch) (hvec : Spec.Amf.vector P scfg j ch = some aka)
+    (hamf : ch.amfUeNgapId < 2 ^ 40)
+    (d2 d3 d4 d5 : Bytes) (keys : Model.KeyDerivation.UeKeys)
+    (D : DlReads P cfg (createUE cfg j) d2 d3 d4 d5 ch.amfUeNgapId keys (createUE cfg j))
+    (hkeys : keys.resStar = aka.resStar ∧ keys.knasEnc = aka.knasEnc ∧ keys.knasInt = aka.knasInt)
+    (k : Nat) (wd : World) (rest : List Bytes) (hdls : wd.dls = d2 :: d3 :: d4 :: d5 :: rest) (hplmn : wd.plmn = m) :
+    ∃ r b2 b3 b4 b5 b6,
+      registerUE P E cfg (createUE cfg j) wd =
+        ({ wd with dls := rest, ulsRev := b6 :: b5 :: b4 :: b3 :: b2 :: wd.ulsRev }, .ok r) ∧
+      ∀ tail, Spec.Amf.run P false scfg chs (regSt us) k (b2 :: b3 :: b4 :: b5 :: b6 :: tail) =
+        Spec.Amf.run P false scfg chs
+          (regSt (us ++ [regUe j (createUE cfg j).ctx.ranUeNgapId ch aka .registered (some 1) [1, 0]])) (k + 5) tail := by
+  have h18 := hd.short
+  have hjlt : j < 2 ^ 62 := by
+    have := hfit.2
+    have h10 : 10 ^ (cfg.imsi.length - (3 + w)) ≤ 10 ^ 18 := Nat.pow_le_pow_right (by omega) (by omega)
+    have : N ≤ 10 ^ 18 := by omega
+    have : (10 : Nat) ^ 18 < 2 ^ 62 := by decide
+    omega
+  have hran : (createUE cfg j).ctx.ranUeNgapId = (((Model.UeIdentity.decVal cfg.imsi + j) % 10000 : Nat) : Int) :=
+    createUE_ranId hd j hjlt cfg.k cfg.opc cfg.op
+  have hr0 : 0 ≤ (createUE cfg j).ctx.ranUeNgapId := by rw [hran]; omega
+  have hr1 : (createUE cfg j).ctx.ranUeNgapId < 2 ^ 32 := by rw [hran]; omega
+  have hd' : DecimalImsi scfg.imsi := by rw [himsi]; exact hd
+  obtain ⟨suci, hsuci, hslen, hsub⟩ := C01_subscriber_identified scfg hd' hw (by rw [himsi]; exact hmcc) (by rw [himsi]; exact hmnc)
+    (by rw [himsi]; exact hlen) (by rw [himsi, hN]; exact hfit) (j := j) (by rw [hN]; exact hj) cfg.k cfg.opc cfg.op
+  have hsuci' : Model.Suci.encodeSuci (Model.Suci.trimImsiPrefix (createUE cfg j).ctx.supi) cfg.mnc.length = .ok suci := by
+    rw [hmncl]
+    have : (createUE cfg j).ctx = Model.UeIdentity.createUE scfg.imsi ((j : Nat) : Int) cfg.k cfg.opc cfg.op := by
+      rw [himsi]; rfl
+    rw [this]
+    exact hsuci
+  rw [himsi] at hslen
+  have hmi : (suciVal suci).iei = 0 ∧ (suciVal suci).len = (suciVal suci).data.length ∧ (suciVal suci).data.length < 65536 :=
+    ⟨rfl, by show suci.length % 65536 = suci.length; omega, by show suci.length < 65536; omega⟩
+  have hcapS := C01_security_capability cfg j
+  have hrr : ∀ rr, Nas.Ctor.encodeWith Gen.Nas.layout_RegistrationRequest
+      (Nas.Ctor.registrationRequest 1 (suciVal suci) none (some (secCapVal (createUE cfg j))) (some cap5GMMVal) none none) = .ok rr →
+      rr.length < 65536 := fun rr hrr =>
+    registrationRequest_short (suciVal suci) (secCapVal (createUE cfg j)) hmi (secCapVal_shape cfg j)
+      (by show suci.length ≤ 26; omega) rr hrr
+  have hin : InStep (secAfterKeys (createUE cfg j) keys) (regUe j (createUE cfg j).ctx.ranUeNgapId ch aka .authSent none []) := by
+    refine ⟨?_, ?_⟩
+    · simp [Proofs.NasProtect.ctxOf, Spec.Amf.ctxOf, regUe, hkeys.2.1, hkeys.2.2, Spec.Amf.selectedIa, Spec.Amf.selectedEa]
+      exact ⟨rfl, rfl⟩
+    · exact ⟨.inr rfl, .inl rfl⟩
+  obtain ⟨nas2, b2, nas3, b3, rr, smc, o1, b4, b5, rc, o2, b6, e2, e3, e4, e5, e6, e7, e8, e9, e10, e11, e12, e13, hrun⟩ :=
+    C01_registration_block P hP false scfg chs E m hm us j k (createUE cfg j).ctx.ranUeNgapId hr0 hr1 hnew
+      (suciVal suci) (secCapVal (createUE cfg j)) hmi (secCapVal_shape cfg j) hcapS.1 hcapS.2 ch aka hsub hch hvec hamf
+      (vector_resStar_length P hH scfg j ch aka hvec) (secAfterKeys (createUE cfg j) keys) hin hrr
+  obtain ⟨pm4, hpd4, hpe4⟩ := Proofs.EmulatorReencode.reenc_smc rr smc (hrr rr e6) e7
+  obtain ⟨pm6, hpd6, hpe6⟩ := Proofs.EmulatorReencode.reenc_rc rc e11
+  have R : RegReads P E cfg (createUE cfg j) wd.plmn d2 d3 d4 d5 suci nas2 b2 nas3 b3 rr smc o1 b4 b5 rc o2 b6 ch.amfUeNgapId keys
+      (createUE cfg j) :=
+    { hsuci := hsuci', henc2 := e2, hrun2 := by rw [hplmn]; exact e3, v2 := D.v2, dnt := D.dnt, hdec2 := D.hdec2, hdnt := D.hdnt,
+      pm := D.pm, hgn := D.hgn, autn := D.autn, rand := D.rand, hauth := D.hauth, hkeys := D.hkeys, hamf := D.hamf,
+      henc3 := by rw [hkeys.1]; exact e4, hrun3 := by rw [hplmn]; exact e5, v3 := D.v3, hdec3 := D.hdec3,
+      hencrr := e6, hencsmc := e7, pm4 := pm4, hpd4 := hpd4, hpe4 := hpe4, ho1 := e8,
+      hrun4 := by rw [hplmn]; exact e9, v4 := D.v4, hdec4 := D.hdec4, hrun5 := by rw [hplmn]; exact e10,
+      hencrc := e11, pm6 := pm6, hpd6 := hpd6, hpe6 := hpe6, ho2 := e12, hrun6 := by rw [hplmn]; exact e13, hdec5 := D.hdec5 }
+  obtain ⟨r, hreg⟩ := registerUE_run P E cfg (createUE cfg j) wd d2 d3 d4 d5 rest hdls
+    suci nas2 b2 nas3 b3 rr smc o1 b4 b5 rc o2 b6 ch.amfUeNgapId keys (createUE cfg j) R
+  exact ⟨r, b2, b3, b4, b5, b6, hreg, hrun⟩
+
+/-- the downlink messages UE `j`'s registration reads, for `j = i, …, i + n − 1`, in order -/
+def dlsOf (dn : Nat → Bytes × Bytes × Bytes × Bytes) (i n : Nat) : List Bytes :=
+  (List.range' i n).flatMap fun j => [(dn j).1, (dn j).2.1, (dn j).2.2.1, (dn j).2.2.2]
+
+/-- the judge's UEs after the registrations of UEs 0 … i − 1 -/
+def usOf (cfg : Cfg) (chf : Nat → Spec.Amf.Choice) (akaf : Nat → Spec.Ts33501A.Aka) (i : Nat) : List Spec.Amf.UeSt :=
+  (List.range i).map fun j => regUe j (createUE cfg j).ctx.ranUeNgapId (chf j) (akaf j) .registered (some 1) [1, 0]
+
+open Stgutg.Proofs.UeIdentity Stgutg.Proofs.EmulatorRun in
+/-- **C01_register_loop.** The registration loop of test mode for UEs `i … i + n − 1` of a population of `N ≤ 10 000`, emulator and
+    judge together: the loop reads `4·n` downlink messages, writes `5·n` uplink messages and completes; judged at position `k`
+    from the state "UEs 0 … i − 1 registered", they raise no clause and leave UEs 0 … i + n − 1 registered (the judge keys UEs by
+    RAN-UE-NGAP-ID: distinct by C16; and by subscriber index). -/
+theorem C01_register_loop (P : Prims) (hP : PrimsOk P) (hH : MacLen P.hmac) (cfg : Cfg) (scfg : Spec.Amf.Cfg)
+    (chs : List Spec.Amf.Choice) (E : Model.Convert.Ext) (N : Nat) (hN : Spec.Amf.subscribers scfg = N) (hN4 : N ≤ 10000)
+    (himsi : scfg.imsi = cfg.imsi) (hd : DecimalImsi cfg.imsi) {w : Nat} (hw : w = 2 ∨ w = 3) (hmncl : cfg.mnc.length = w)
+    (hmcc : scfg.mcc = cfg.imsi.take 3) (hmnc : scfg.mnc = (cfg.imsi.drop 3).take w) (hlen : 3 + w < cfg.imsi.length)
+    (hfit : MsinFits cfg.imsi (3 + w) N) (m : Bytes) (hm : m.length = 3)
+    (chf : Nat → Spec.Amf.Choice) (akaf : Nat → Spec.Ts33501A.Aka) (dn : Nat → Bytes × Bytes × Bytes × Bytes)
+    (keysf : Nat → Model.KeyDerivation.UeKeys)
+    (hch : ∀ j, j < N → chs[j]? = some (chf j)) (hvec : ∀ j, j < N → Spec.Amf.vector P scfg j (chf j) = some (akaf j))
+    (hamf : ∀ j, j < N → (chf j).amfUeNgapId < 2 ^ 40)
+    (hD : ∀ j, j < N → DlReads P cfg (createUE cfg j) (dn j).1 (dn j).2.1 (dn j).2.2.1 (dn j).2.2.2 (chf j).amfUeNgapId (keysf j)
+      (createUE cfg j))
+    (hkeys : ∀ j, j < N → (keysf j).resStar = (akaf j).resStar ∧ (keysf j).knasEnc = (akaf j).knasEnc ∧
+      (keysf j).knasInt = (akaf j).knasInt) :
+    ∀ (n i : Nat) (ues : List Ue) (wd : World) (tailDls : List Bytes) (k : Nat), i + n ≤ N →
+      wd.dls = dlsOf dn i n ++ tailDls → wd.plmn = m →
+      ∃ wd' ues' uls, registerLoop P E cfg n i ues wd = (wd', .ok ues') ∧ wd'.dls = tailDls ∧
+        wd'.ulsRev = uls.reverse ++ wd.ulsRev ∧ wd'.plmn = m ∧
+        ∀ tail, Spec.Amf.run P false scfg chs (regSt (usOf cfg chf akaf i)) k (uls ++ tail) =
+          Spec.Amf.run P false scfg chs (regSt (usOf cfg chf akaf (i + n))) (k + 5 * n) tail := by
+  intro n
+  induction n with
+  | zero =>
+    intro i ues wd tailDls k _ hdls hplmn
+    refine ⟨wd, ues, [], rfl, by simpa [dlsOf] using hdls, by simp, hplmn, fun tail => by simp⟩
+  | succ n ih =>
+    intro i ues wd tailDls k hle hdls hplmn
+    have hi : i < N := by omega
+    have hnew : ∀ x ∈ usOf cfg chf akaf i, x.ran ≠ (createUE cfg i).ctx.ranUeNgapId ∧ x.j ≠ i := by
+      intro x hx
+      simp only [usOf, List.mem_map, List.mem_range] at hx
+      obtain ⟨j', hj', rfl⟩ := hx
+      refine ⟨?_, by simp [regUe]; omega⟩
+      exact (Props.C16.C16_ran_id_distinct hd hN4 (by omega : j' < N) hi (by omega) cfg.k cfg.opc cfg.op cfg.k cfg.opc cfg.op).1
+    have hdls' : wd.dls = (dn i).1 :: (dn i).2.1 :: (dn i).2.2.1 :: (dn i).2.2.2 :: (dlsOf dn (i + 1) n ++ tailDls) := by
+      rw [hdls]; simp [dlsOf, List.range'_succ]
+    obtain ⟨r, b2, b3, b4, b5, b6, hreg, hrun⟩ := C01_register_one P hP hH cfg scfg chs E N hN himsi hd hw hmncl hmcc hmnc hlen hfit
+      m hm i hi (usOf cfg chf akaf i) hnew (chf i) (akaf i) (hch i hi) (hvec i hi) (hamf i hi)
+      (dn i).1 (dn i).2.1 (dn i).2.2.1 (dn i).2.2.2 (keysf i) (hD i hi) (hkeys i hi) k wd _ hdls' hplmn
+    obtain ⟨wd', ues', uls', hloop, h1, h2, h3, h4⟩ := ih (i + 1)
+      (ues ++ [{ createUE cfg i with amfUeNgapId := r.amfUeNgapId, kamf := r.kamf, sec := r.sec }])
+      { wd with dls := dlsOf dn (i + 1) n ++ tailDls, ulsRev := b6 :: b5 :: b4 :: b3 :: b2 :: wd.ulsRev } tailDls (k + 5)
+      (by omega) rfl hplmn
+    refine ⟨wd', ues', b2 :: b3 :: b4 :: b5 :: b6 :: uls', ?_, h1, ?_, h3, fun tail => ?_⟩
+    · simp only [registerLoop, Proofs.Emulator.bind_apply, hreg]
+      exact hloop
+    · rw [h2]; simp
+    · have hus : usOf cfg chf akaf (i + 1) = usOf cfg chf akaf i ++
+          [regUe i (createUE cfg i).ctx.ranUeNgapId (chf i) (akaf i) .registered (some 1) [1, 0]] := by
+        simp [usOf, List.range_succ]
+      have := hrun (uls' ++ tail)
+      simp only [List.cons_append] at this ⊢
+      rw [this, ← hus, h4 tail]
+      have e1 : i + 1 + n = i + (n + 1) := by omega
+      have e2 : k + 5 + 5 * n = k + 5 * (n + 1) := by omega
+      rw [e1, e2]
+
+theorem run_nil (P : Prims) (life : Bool) (cfg : Spec.Amf.Cfg) (chs : List Spec.Amf.Choice) (s : Spec.Amf.St) (k : Nat) :
+    Spec.Amf.run P life cfg chs s k [] = s := by
+  unfold Spec.Amf.run; rfl
+
+open Stgutg.Proofs.BuildersRoles Stgutg.Proofs.UeIdentity Stgutg.Proofs.EmulatorRun in
+/-- **C01_accepted_n_for_downlink.** NG Setup + the registration of `N ≤ 10 000` UEs (`Test_ue_registation` = N, nothing after
+    it), through `emulate`, with the downlink side as hypotheses (`DlReads` for every UE): the emulator completes and the
+    reference AMF accepts the whole transcript of `1 + 5·N` uplink messages. -/
+theorem C01_accepted_n_for_downlink (P : Prims) (hP : PrimsOk P) (hH : MacLen P.hmac) (cfg : Cfg) (scfg : Spec.Amf.Cfg)
+    (chs : List Spec.Amf.Choice) (E : Model.Convert.Ext) (N : Nat) (hN : Spec.Amf.subscribers scfg = N) (hN4 : N ≤ 10000)
+    (hreg : cfg.reg = (N : Int)) (hpdu : cfg.pdu = 0) (hdereg : cfg.dereg = 0)
+    (himsi : scfg.imsi = cfg.imsi) (hd : DecimalImsi cfg.imsi) {w : Nat} (hw : w = 2 ∨ w = 3) (hmncl : cfg.mnc.length = w)
+    (hmcc : scfg.mcc = cfg.imsi.take 3) (hmnc : scfg.mnc = (cfg.imsi.drop 3).take w) (hlen : 3 + w < cfg.imsi.length)
+    (hfit : MsinFits cfg.imsi (3 + w) N)
+    (h22 : 22 ≤ cfg.bitlength) (h32 : cfg.bitlength ≤ 32) (hg : cfg.gnbId.length = (cfg.bitlength + 7) / 8)
+    (hc : Canonical cfg.gnbId cfg.bitlength) (hname : 1 ≤ cfg.name.length)
+    (m : Bytes) (hplmn : Model.Suci.ngSetupPlmn cfg.imsi cfg.mnc.length = .ok m) (hm : m.length = 3)
+    (hcfg : Spec.Amf.plmnOf scfg = some m)
+    (d1 : Bytes) (v1 : Aper.Val) (hdec1 : ngapDecode (d1.take 2048) = .ok v1)
+    (chf : Nat → Spec.Amf.Choice) (akaf : Nat → Spec.Ts33501A.Aka) (dn : Nat → Bytes × Bytes × Bytes × Bytes)
+    (keysf : Nat → Model.KeyDerivation.UeKeys)
+    (hch : ∀ j, j < N → chs[j]? = some (chf j)) (hvec : ∀ j, j < N → Spec.Amf.vector P scfg j (chf j) = some (akaf j))
+    (hamf : ∀ j, j < N → (chf j).amfUeNgapId < 2 ^ 40)
+    (hD : ∀ j, j < N → DlReads P cfg (createUE cfg j) (dn j).1 (dn j).2.1 (dn j).2.2.1 (dn j).2.2.2 (chf j).amfUeNgapId (keysf j)
+      (createUE cfg j))
+    (hkeys : ∀ j, j < N → (keysf j).resStar = (akaf j).resStar ∧ (keysf j).knasEnc = (akaf j).knasEnc ∧
+      (keysf j).knasInt = (akaf j).knasInt) :
+    (emulate P E cfg (d1 :: dlsOf dn 0 N)).outcome = .completed ∧
+    Spec.Amf.judge P false scfg chs (emulate P E cfg (d1 :: dlsOf dn 0 N)).uls none
+      ((emulate P E cfg (d1 :: dlsOf dn 0 N)).outcome == .completed) = .accept := by
+  -- NG Setup
+  obtain ⟨b1, hrun1, hstep1⟩ := C01_step_ng_setup_request P scfg chs {} 0 E [] cfg.gnbId m cfg.name (cfg.bitlength : Int) hm
+    (by exact_mod_cast h22) (by exact_mod_cast h32) (by simpa using hg) (by simpa using hc) hname hcfg rfl
+  have hsetup := manageNGSetup_run E cfg { dls := d1 :: dlsOf dn 0 N } m b1 d1 (dlsOf dn 0 N) v1 hplmn hrun1 rfl hdec1
+  -- the registration loop
+  obtain ⟨wd', ues', uls, hloop, hdls', hrev, _, hjudge⟩ := C01_register_loop P hP hH cfg scfg chs E N hN hN4 himsi hd hw hmncl hmcc hmnc
+    hlen hfit m hm chf akaf dn keysf hch hvec hamf hD hkeys N 0 [] { dls := dlsOf dn 0 N, ulsRev := [b1], plmn := m } [] 1
+    (by omega) (by simp) rfl
+  -- the loop bounds
+  have hnum := Props.C02.genNumbers_eq (countsOf cfg)
+  have hregs : (genRegistrations (countsOf cfg)).toNat = N := by rw [hnum.2]; simp [countsOf, hreg]
+  have hest : (genNumbers (countsOf cfg)).establish.toNat = 0 := by
+    rw [hnum.1]; simp only [numbers, countsOf, hreg, hpdu, Model.FailStop.goMin]
+    split <;> simp <;> omega
+  have hsvc : (genNumbers (countsOf cfg)).service.toNat = 0 := by
+    rw [hnum.1]; simp only [numbers, countsOf, hreg, hpdu, Model.FailStop.goMin]
+    split <;> split <;> simp <;> omega
+  have hrel : (genNumbers (countsOf cfg)).release.toNat = 0 := by
+    rw [hnum.1]; simp only [numbers, countsOf, hreg, hpdu, Model.FailStop.goMin]
+    split <;> split <;> simp <;> omega
+  have hder : (genNumbers (countsOf cfg)).deregister.toNat = 0 := by
+    rw [hnum.1]; simp only [numbers, countsOf, hreg, hdereg, Model.FailStop.goMin]
+    split <;> simp <;> omega
+  have hrunall : testMode P E cfg { dls := d1 :: dlsOf dn 0 N } = (wd', .ok ()) := by
+    unfold testMode
+    simp only [Proofs.Emulator.bind_apply, hsetup, hregs, hest, hsvc, hrel, hder, hloop, forUes, Proofs.Emulator.pure_apply]
+  have huls : (emulate P E cfg (d1 :: dlsOf dn 0 N)).uls = b1 :: uls := by
+    unfold emulate; rw [hrunall]; simp [transcriptOf, hrev]
+  have hout : (emulate P E cfg (d1 :: dlsOf dn 0 N)).outcome = .completed := by
+    unfold emulate; rw [hrunall]; rfl
+  refine ⟨hout, ?_⟩
+  rw [huls, hout]
+  unfold Spec.Amf.judge Spec.Amf.clauses
+  have hj := hjudge []
+  rw [List.append_nil, run_nil] at hj
+  have h0 : usOf cfg chf akaf 0 = [] := rfl
+  rw [h0] at hj
+  rw [run_clean_step P false scfg chs {} 0 b1 _ rfl (by rw [hstep1]), hstep1]
+  have hst : ({ ({} : Spec.Amf.St) with ngSetup := true }) = regSt [] := rfl
+  rw [hst, hj]
+  have hall : ∀ x ∈ usOf cfg chf akaf N, Spec.Amf.isRegisteredOrLater x = true := by
+    intro x hx
+    simp only [usOf, List.mem_map] at hx
+    obtain ⟨j, _, rfl⟩ := hx
+    rfl
+  have hlen : (usOf cfg chf akaf N).length = N := by simp [usOf]
+  simp only [Nat.zero_add]
+  simp [Spec.Amf.finish, regSt, hN]
+  rw [if_pos ⟨hlen, hall⟩]
+  rfl
+
+open Stgutg.Proofs.UeIdentity Stgutg.Proofs.EmulatorRun Stgutg.Proofs.EmulatorSubscriber Stgutg.Proofs.EmulatorDownlink in
+/-- **C01_dlReads_of_spec.** The downlink side of UE `j`'s registration, PROVED for the specified messages: when the AMF sends
+    `Spec.AmfDl.dl` for subscriber `j` under its choice `ch` (and the messages fit the receive buffer), the NG SETUP RESPONSE is
+    decodable and the other four satisfy `DlReads` — they decode (C04 on the downlink values), `GetNasPdu` / `PlainNasDecode` /
+    `authParams` obtain the AUTN and RAND of the choice from the Authentication Request (C09), `List[0]` is the AMF-UE-NGAP-ID,
+    and `DeriveRESstarAndSetKey` returns the RES* and NAS keys of the network's vector (`C01_res_star`). -/
+theorem C01_dlReads_of_spec (P : Prims) (hE : BlockCipher P.aes) (hH : MacLen P.hmac) (cfg : Cfg) (scfg : Spec.Amf.Cfg)
+    (himsi : scfg.imsi = cfg.imsi) (hd : DecimalImsi cfg.imsi) (h5 : 5 ≤ cfg.imsi.length) (h15 : cfg.imsi.length ≤ 15)
+    (hmcc3 : cfg.mcc.length = 3) (hmnc23 : cfg.mnc.length = 2 ∨ cfg.mnc.length = 3)
+    (hmccB : scfg.mcc = cfg.mcc) (hmncB : scfg.mnc = cfg.mnc)
+    (m : Bytes) (hm : m.length = 3) (hcfg : Spec.Amf.plmnOf scfg = some m)
+    (k opc : Bytes) (hk : hexDecode cfg.k = some k) (hk' : Spec.Amf.hexText scfg.k = some k) (hk16 : k.length = 16)
+    (hopcne : cfg.opc ≠ []) (hopc : hexDecode cfg.opc = some opc) (hopc' : Spec.Amf.opcOf P scfg = some opc)
+    (hopc16 : opc.length = 16) (habba : 2 ≤ scfg.abba.length ∧ scfg.abba.length < 256)
+    (j : Nat) (hjfit : Model.UeIdentity.decVal cfg.imsi + j < 10 ^ cfg.imsi.length)
+    (ch : Spec.Amf.Choice) (hamf : ch.amfUeNgapId < 2 ^ 40)
+    (hrand : ch.rand.length = 16) (hsqn : ch.sqn.length = 6) (hamfF : ch.amf.length = 2)
+    (cap : Bytes) (dls : List Bytes)
+    (hdl : Spec.AmfDl.dl P scfg j ch (createUE cfg j).ctx.ranUeNgapId cap = some dls) (hbuf : ∀ d ∈ dls, d.length ≤ 2048) :
+    ∃ d1 d2 d3 d4 d5 aka keys v1, dls = [d1, d2, d3, d4, d5] ∧ Spec.Amf.vector P scfg j ch = some aka ∧
+      Spec.AmfDl.ngap (Spec.AmfDl.ngSetupResponse m) = some d1 ∧ ngapDecode (d1.take 2048) = .ok v1 ∧
+      Nonempty (DlReads P cfg (createUE cfg j) d2 d3 d4 d5 ch.amfUeNgapId keys (createUE cfg j)) ∧
+      keys.resStar = aka.resStar ∧ keys.knasEnc = aka.knasEnc ∧ keys.knasInt = aka.knasInt := by
+  obtain ⟨plmn, aka, autn, ar, n3, n4, n5, d1, d2, d3, d4, d5, e1, hvec, e3, e4, e5, e6, e7, e8, e9, rfl⟩ :=
+    dl_some P scfg j ch _ cap dls hdl
+  have hpm : plmn = m := Option.some.inj (e1.symm.trans hcfg)
+  subst hpm
+  have h18 := hd.short
+  have hjlt : j < 2 ^ 62 := by
+    have h10 : 10 ^ cfg.imsi.length ≤ 10 ^ 18 := Nat.pow_le_pow_right (by omega) (by omega)
+    have : (10 : Nat) ^ 18 < 2 ^ 62 := by decide
+    omega
+  have hran : (createUE cfg j).ctx.ranUeNgapId = (((Model.UeIdentity.decVal cfg.imsi + j) % 10000 : Nat) : Int) :=
+    createUE_ranId hd j hjlt cfg.k cfg.opc cfg.op
+  have hr0 : 0 ≤ (createUE cfg j).ctx.ranUeNgapId := by rw [hran]; omega
+  have hr1 : (createUE cfg j).ctx.ranUeNgapId < 2 ^ 32 := by rw [hran]; omega
+  have ha0 : (0 : Int) ≤ ch.amfUeNgapId := by omega
+  have ha1 : (ch.amfUeNgapId : Int) < 2 ^ 40 := by exact_mod_cast hamf
+  have hautn : autn = Spec.Ts35206.autn P.aes k opc ch.rand ch.sqn ch.amf := by
+    unfold Spec.Amf.autnOf at e3
+    rw [hk', hopc'] at e3
+    exact (Option.some.inj e3).symm
+  have hautn16 : autn.length = 16 := by
+    rw [hautn]
+    unfold Spec.Ts35206.autn
+    have h5' := f5_length (rand := ch.rand) hE hk16 hopc16 hrand
+    have h1' := f1_length (rand := ch.rand) hE hk16 hopc16 hrand hsqn hamfF
+    simp only [List.length_append, Proofs.Milenage.xorBytes_length, h5', h1', hsqn, hamfF]
+    rfl
+  have hb := hbuf
+  simp only [List.mem_cons, List.not_mem_nil, or_false, forall_eq_or_imp, forall_eq] at hb
+  obtain ⟨hb1, hb2, hb3, hb4, hb5⟩ := hb
+  obtain ⟨x1, hx1, hdec1⟩ := ngsr_roundtrip plmn hm
+  have : x1 = d1 := Option.some.inj (hx1.symm.trans e4); subst this
+  obtain ⟨x2, hx2, hdec2⟩ := dnt_roundtrip ch.amfUeNgapId (createUE cfg j).ctx.ranUeNgapId ar ha0 ha1 hr0 hr1
+  have : x2 = d2 := Option.some.inj (hx2.symm.trans e6); subst this
+  obtain ⟨x3, hx3, hdec3⟩ := dnt_roundtrip ch.amfUeNgapId (createUE cfg j).ctx.ranUeNgapId n3 ha0 ha1 hr0 hr1
+  have : x3 = d3 := Option.some.inj (hx3.symm.trans e7); subst this
+  obtain ⟨x4, hx4, hdec4⟩ := icsReq_roundtrip plmn hm ch.amfUeNgapId (createUE cfg j).ctx.ranUeNgapId (Spec.AmfDl.kgnb P aka.kamf) n4
+    ha0 ha1 hr0 hr1 (by unfold Spec.AmfDl.kgnb Spec.Ts33501A.kdf; exact hH _ _)
+  have : x4 = d4 := Option.some.inj (hx4.symm.trans e8); subst this
+  obtain ⟨x5, hx5, hdec5⟩ := dnt_roundtrip ch.amfUeNgapId (createUE cfg j).ctx.ranUeNgapId n5 ha0 ha1 hr0 hr1
+  have : x5 = d5 := Option.some.inj (hx5.symm.trans e9); subst this
+  obtain ⟨pm, r, hpd, hauth, har⟩ := ar_decodes ch.ngKsi scfg.abba ch.rand autn habba.2 habba.1 hrand hautn16 ar e5
+  subst har
+  have hd' : DecimalImsi scfg.imsi := by rw [himsi]; exact hd
+  have hsupi : (createUE cfg j).ctx.supi = Model.UeIdentity.imsiPrefix ++ Model.UeIdentity.decW cfg.imsi.length
+      (Model.UeIdentity.decVal cfg.imsi + j) := createUE_supi hd j hjfit cfg.k cfg.opc cfg.op
+  have hds := supiDigits_eq scfg hd' j
+  rw [himsi] at hds
+  have hdigs := decW_digits cfg.imsi.length (Model.UeIdentity.decVal cfg.imsi + j)
+  obtain ⟨keys, hder, k1, _, k3, k4⟩ := C01_res_star P hE hH scfg ch j aka
+    { amf := (createUE cfg j).ctx.amf, k := (createUE cfg j).ctx.k, opc := (createUE cfg j).ctx.opc, op := (createUE cfg j).ctx.op }
+    [0x80, 0x00] k opc (Model.UeIdentity.decW cfg.imsi.length (Model.UeIdentity.decVal cfg.imsi + j)) _ hvec
+    hk hk' hk16 hopcne hopc hopc' hopc16 (show hexDecode [56, 48, 48, 48] = some [0x80, 0x00] by decide) (by decide) hrand hsqn hds
+    (asc_digitsOf _ hdigs)
+    (by rw [List.all_eq_true]; intro c hc; exact hdigs c hc)
+    (by rw [decW_length]; exact h5) (by rw [decW_length]; exact h15)
+    (by rw [hmccB]; exact hmcc3) (by rw [hmncB]; exact hmnc23)
+  rw [hmccB, hmncB, ← hautn] at hder
+  refine ⟨x1, x2, x3, x4, x5, aka, keys, _, rfl, hvec, e4, by rw [take2048 _ hb1]; exact hdec1, ⟨?_⟩, k1, k3, k4⟩
+  exact
+    { v2 := _, dnt := _, hdec2 := by rw [take2048 _ hb2]; exact hdec2, hdnt := dnt_alt _ _ _,
+      pm := some pm, hgn := fun w => dnt_getNasPdu P _ _ _ r pm hpd w, autn := autn, rand := ch.rand, hauth := hauth,
+      hkeys := by rw [hsupi]; exact hder, hamf := dnt_amf _ _ _,
+      v3 := _, hdec3 := by rw [take2048 _ hb3]; exact hdec3, v4 := _, hdec4 := by rw [take2048 _ hb4]; exact hdec4,
+      hdec5 := by rw [take2048 _ hb5, hdec5]; exact ⟨by simp, by simp⟩ }
+
+open Stgutg.Proofs.BuildersRoles Stgutg.Proofs.UeIdentity Stgutg.Proofs.EmulatorRun in
+/-- **C01_accepted_n.** The statement of C01 for `N ≤ 10 000` UEs with the downlink side SPECIFIED: for every well-formed
+    configuration (as in `C01_accepted`; the MSIN digits accommodate the population; `Test_ue_registation` = N, nothing after it)
+    and every choice of a conformant AMF for every UE (RAND of 16 octets, SQN of 6, AMF field of 2, any ngKSI, AMF-UE-NGAP-ID
+    below 2^40), when the AMF sends the NG SETUP RESPONSE and then, for UE 0, 1, …, N − 1 in order, the four messages of
+    `Spec.AmfDl.dl` for that UE (each within the 2048-octet receive buffer), the emulator completes and the reference AMF
+    ACCEPTS its transcript of 1 + 5·N uplink messages. -/
+theorem C01_accepted_n (P : Prims) (hP : PrimsOk P) (hE : BlockCipher P.aes) (hH : MacLen P.hmac) (cfg : Cfg) (scfg : Spec.Amf.Cfg)
+    (chs : List Spec.Amf.Choice) (E : Model.Convert.Ext) (N : Nat) (hN : Spec.Amf.subscribers scfg = N) (hN4 : N ≤ 10000)
+    (hreg : cfg.reg = (N : Int)) (hpdu : cfg.pdu = 0) (hdereg : cfg.dereg = 0)
+    (himsi : scfg.imsi = cfg.imsi) (hd : DecimalImsi cfg.imsi) (h5 : 5 ≤ cfg.imsi.length) (h15 : cfg.imsi.length ≤ 15)
+    {w : Nat} (hw : w = 2 ∨ w = 3) (hmncl : cfg.mnc.length = w) (hmcc3 : cfg.mcc.length = 3)
+    (hmccB : scfg.mcc = cfg.mcc) (hmncB : scfg.mnc = cfg.mnc)
+    (hmcc : scfg.mcc = cfg.imsi.take 3) (hmnc : scfg.mnc = (cfg.imsi.drop 3).take w) (hlen : 3 + w < cfg.imsi.length)
+    (hfit : MsinFits cfg.imsi (3 + w) N)
+    (h22 : 22 ≤ cfg.bitlength) (h32 : cfg.bitlength ≤ 32) (hg : cfg.gnbId.length = (cfg.bitlength + 7) / 8)
+    (hc : Canonical cfg.gnbId cfg.bitlength) (hname : 1 ≤ cfg.name.length)
+    (m : Bytes) (hplmn : Model.Suci.ngSetupPlmn cfg.imsi cfg.mnc.length = .ok m) (hm : m.length = 3)
+    (hcfg : Spec.Amf.plmnOf scfg = some m)
+    (k opc : Bytes) (hk : hexDecode cfg.k = some k) (hk' : Spec.Amf.hexText scfg.k = some k) (hk16 : k.length = 16)
+    (hopcne : cfg.opc ≠ []) (hopc : hexDecode cfg.opc = some opc) (hopc' : Spec.Amf.opcOf P scfg = some opc)
+    (hopc16 : opc.length = 16) (habba : 2 ≤ scfg.abba.length ∧ scfg.abba.length < 256)
+    -- the AMF's choices, one per UE
+    (chf : Nat → Spec.Amf.Choice) (hch : ∀ j, j < N → chs[j]? = some (chf j))
+    (hchWF : ∀ j, j < N → (chf j).amfUeNgapId < 2 ^ 40 ∧ (chf j).rand.length = 16 ∧ (chf j).sqn.length = 6 ∧ (chf j).amf.length = 2)
+    -- the downlink messages are those of the specification
+    (caps : Nat → Bytes) (d1 : Bytes) (dn : Nat → Bytes × Bytes × Bytes × Bytes)
+    (hd1 : Spec.AmfDl.ngap (Spec.AmfDl.ngSetupResponse m) = some d1) (hb1 : d1.length ≤ 2048)
+    (hdl : ∀ j, j < N → Spec.AmfDl.dl P scfg j (chf j) (createUE cfg j).ctx.ranUeNgapId (caps j) =
+      some [d1, (dn j).1, (dn j).2.1, (dn j).2.2.1, (dn j).2.2.2])
+    (hbuf : ∀ j, j < N → (dn j).1.length ≤ 2048 ∧ (dn j).2.1.length ≤ 2048 ∧ (dn j).2.2.1.length ≤ 2048 ∧ (dn j).2.2.2.length ≤ 2048) :
+    (emulate P E cfg (d1 :: dlsOf dn 0 N)).outcome = .completed ∧
+    Spec.Amf.judge P false scfg chs (emulate P E cfg (d1 :: dlsOf dn 0 N)).uls none
+      ((emulate P E cfg (d1 :: dlsOf dn 0 N)).outcome == .completed) = .accept := by
+  have hFits := msinFits_fits hd hfit
+  unfold Fits at hFits
+  -- per UE: the vector, the keys, the reads
+  have hper : ∀ j, j < N → ∃ aka keys, Spec.Amf.vector P scfg j (chf j) = some aka ∧
+      Nonempty (DlReads P cfg (createUE cfg j) (dn j).1 (dn j).2.1 (dn j).2.2.1 (dn j).2.2.2 (chf j).amfUeNgapId keys (createUE cfg j)) ∧
+      keys.resStar = aka.resStar ∧ keys.knasEnc = aka.knasEnc ∧ keys.knasInt = aka.knasInt := by
+    intro j hj
+    obtain ⟨ha, hr, hs, hf⟩ := hchWF j hj
+    obtain ⟨hbb2, hbb3, hbb4, hbb5⟩ := hbuf j hj
+    obtain ⟨x1, x2, x3, x4, x5, aka, keys, v1, heq, hvec, _, _, hD, hk1, hk2, hk3⟩ := C01_dlReads_of_spec P hE hH cfg scfg himsi hd h5 h15
+      hmcc3 (by rw [hmncl]; exact hw) hmccB hmncB m hm hcfg k opc hk hk' hk16 hopcne hopc hopc' hopc16 habba j (by omega) (chf j) ha hr hs hf
+      (caps j) _ (hdl j hj) (by
+        intro d hdm
+        simp only [List.mem_cons, List.not_mem_nil, or_false] at hdm
+        rcases hdm with rfl | rfl | rfl | rfl | rfl <;> assumption)
+    simp only [List.cons.injEq, and_true] at heq
+    obtain ⟨_, rfl, rfl, rfl, rfl⟩ := heq
+    exact ⟨aka, keys, hvec, hD, hk1, hk2, hk3⟩
+  -- as functions of the index
+  let akaf : Nat → Spec.Ts33501A.Aka := fun j =>
+    if h : j < N then Classical.choose (hper j h) else ⟨[], [], [], [], [], []⟩
+  let keysf : Nat → Model.KeyDerivation.UeKeys := fun j =>
+    if h : j < N then Classical.choose (Classical.choose_spec (hper j h)) else ⟨[], [], [], []⟩
+  have hspec : ∀ j (h : j < N), Spec.Amf.vector P scfg j (chf j) = some (akaf j) ∧
+      Nonempty (DlReads P cfg (createUE cfg j) (dn j).1 (dn j).2.1 (dn j).2.2.1 (dn j).2.2.2 (chf j).amfUeNgapId (keysf j)
+        (createUE cfg j)) ∧
+      (keysf j).resStar = (akaf j).resStar ∧ (keysf j).knasEnc = (akaf j).knasEnc ∧ (keysf j).knasInt = (akaf j).knasInt := by
+    intro j h
+    simp only [akaf, keysf, dif_pos h]
+    exact Classical.choose_spec (Classical.choose_spec (hper j h))
+  obtain ⟨x1, hx1, hdec1⟩ := Proofs.EmulatorDownlink.ngsr_roundtrip m hm
+  have : x1 = d1 := Option.some.inj (hx1.symm.trans hd1)
+  subst this
+  exact C01_accepted_n_for_downlink P hP hH cfg scfg chs E N hN hN4 hreg hpdu hdereg himsi hd hw hmncl hmcc hmnc hlen hfit h22 h32 hg hc
+    hname m hplmn hm hcfg x1 _ (by rw [take2048 _ hb1]; exact hdec1) chf akaf dn keysf hch (fun j h => (hspec j h).1)
+    (fun j h => (hchWF j h).1) (fun j h => Classical.choice (hspec j h).2.1) (fun j h => (hspec j h).2.2)
 
 /-- the hypotheses of `C01_ng_setup_request_seen` are satisfiable: the gNB id 000102 of 22 bits (src/config.yaml), PLMN 02f839 -/
 example : ([0x00, 0xf1, 0x10] : Bytes).length = 3 ∧ ([0, 1, 4] : Bytes).length = ((22 : Int).toNat + 7) / 8 ∧
